@@ -761,6 +761,133 @@ def mon_c06(case, obs):
 
 
 PROPS['C06'] = {'gen': gen_c06, 'monitors': [mon_c06]}
+# ----------------------------------------------------------------------------- C13
+
+GATE = 0x750000
+HANDLER = 0x704000
+UNMAPPED = [0x300000, 0x20000, 0x200040, 0x400004, 0x500004, 0x602000, 0x800000, 0x1000000, 0xfffffffc, 0x4ffffc]
+ROMADDR = [0x1000, 0x0, 0x1fffc, 0x8000]
+
+
+def exc_setup(r, handler_code=None):
+    hpsw = r.choice([0x0281e100, 0x00000000, 0x003c1e00, 0x0001e000]) & 0xffffffff
+    return [(0, be(GATE, 4)), (GATE + 40, be(hpsw, 4) + be(HANDLER, 4)), (HANDLER, (handler_code or []) + [0x30, 0x45, 0x70, 0x70])]
+
+
+def gen_c13(tier, seed):
+    g = G('s', seed)
+    r = g.rnd
+    n = 12 if tier == 'quick' else 300
+    two = ['ADDW2', 'SUBW2', 'ANDW2', 'ORW2', 'XORW2', 'MULW2', 'DIVW2', 'MODW2', 'ADDH2', 'ADDB2', 'SUBH2', 'ANDB2', 'MOVW', 'MOVH', 'MOVB',
+           'MCOMW', 'MNEGW', 'CMPW', 'BITW', 'CMPH']
+    three = ['ADDW3', 'SUBW3', 'ANDW3', 'ORW3', 'XORW3', 'MULW3', 'DIVW3', 'MODW3', 'ADDH3', 'SUBB3', 'ALSW3', 'ARSW3', 'LLSW3', 'LRSW3', 'ROTW']
+    one = ['CLRW', 'CLRH', 'CLRB', 'INCW', 'DECW', 'INCB', 'DECH', 'TSTW', 'TSTB', 'PUSHW', 'POPW', 'SWAPWI']
+
+    def good_src():
+        return r.choice([immw(r.choice(BVAL[4])), reg(r.randrange(9)), absa(DATA + 4 * r.randrange(8)), lit(r.randrange(64))])
+
+    def good_dst():
+        return r.choice([reg(r.randrange(9)), absa(DATA + 0x100 + 4 * r.randrange(8))])
+
+    def bad(write):
+        a = r.choice(UNMAPPED + (ROMADDR if write else []))
+        c = r.random()
+        if c < 0.5:
+            return absa(a), {}
+        if c < 0.75:
+            rr = r.randrange(9)
+            return regdef(rr), {rr: a}
+        rr = r.randrange(9)
+        return wdisp(rr, 0x10), {rr: (a - 0x10) & 0xffffffff}
+
+    for name, arity in [(x, 2) for x in two] + [(x, 3) for x in three] + [(x, 1) for x in one]:
+        for pos in range(arity):
+            for _ in range(n):
+                is_dst = (pos == arity - 1) and name not in ('CMPW', 'BITW', 'CMPH', 'TSTW', 'TSTB', 'PUSHW')
+                regsx = {}
+                opsx = []
+                for k in range(arity):
+                    if k == pos:
+                        o, rx = bad(is_dst)
+                        regsx.update(rx)
+                        opsx.append(o)
+                    elif k == 0 and name[:3] in ('DIV', 'MOD'):
+                        opsx.append(immw(r.choice([1, 2, 3, 7, 0xffffffff, 0x10000])))   # a zero divisor is a different exception
+                    elif k == arity - 1 and name not in ('CMPW', 'BITW', 'CMPH', 'TSTW', 'TSTB', 'PUSHW'):
+                        opsx.append(good_dst())
+                    else:
+                        opsx.append(good_src())
+                code = ins(OP[name], *opsx)
+                fl = r.choice(allflags())
+                psw = psw_of(fl, ipl=r.choice([0, 15, 15]), extra=r.choice([0, 0x800, 0x1800, 0x1000]))
+                regs = rnd_regs(r, psw)
+                regs.update(regsx)
+                sp = r.choice([STK, STK + 0x100, 0x7ffff8 - 0x100, 0x700800])
+                regs[12] = sp
+                hcode = r.choice([[], ins(OP['CMPW'], immw(1), immw(0)), ins(OP['MOVW'], immw(0xffffffff), reg(0)) + ins(OP['MOVW'], reg(0), reg(0))])
+                if hcode and OP['MOVW'] == hcode[0]:
+                    hcode = ins(OP['CMPW'], lit(1), lit(0))
+                mem = exc_setup(r, hcode) + [(DATA, [r.randrange(256) for _ in range(0x140)])]
+                nh = 1 if hcode else 0
+                ops = setup_ops(regs, mem, code + [0x70] * 4) + ['k:3e8', 'sx', 'gr', 'rw:%x' % sp, 'rw:%x' % (sp + 4)] + ['sx'] * nh + ['sx', 'gr', 'X:%x' % nh]
+                g.add(ops, 'fault-%s' % ('dst' if is_dst else 'src'))
+    return g.result('Every data-processing / move / stack instruction class (B/H/W forms) with each operand in turn pointing at unmapped space '
+                    '(holes after every device, above RAM, top of the address space) or, for destinations, ROM, through absolute, register-deferred '
+                    'and displacement modes; gate tables and a handler (optionally disturbing the flags) ending in RETG; stepped with Cpu::step '
+                    'through the fault and the return; stack in several RAM positions, IPL and execution level varied.')
+
+
+def mon_c13(case, obs):
+    toks = case.split()[1:]
+    if not toks[-1].startswith('X:'):
+        return None
+    out, fin = monitors.split_obs(obs)
+    regs = {}
+    mem = {}
+    for t in toks:
+        f = t.split(':')
+        if f[0] == 'r':
+            regs[int(f[1], 16)] = int(f[2], 16)
+        elif f[0] == 'ld':
+            a = int(f[1], 16)
+            for i, b in enumerate(bytes.fromhex(f[2])):
+                mem[a + i] = b
+    i1 = toks.index('sx')
+    if any(o == 'p' for o in out):
+        return 'host panic on a guest bus fault'
+    if len(out) < len(toks):
+        return None
+    r1 = [int(x, 16) for x in out[i1 + 1][2:].split(',')]
+    pc0, sp0, psw0 = regs[15], regs[12], regs[11]
+    w0, w4 = out[i1 + 2], out[i1 + 3]
+    if r1[15] != HANDLER:
+        # the instruction did not fault (e.g. a source in a hole that the instruction does not read): nothing to judge
+        if r1[15] != pc0 and r1[12] == sp0:
+            return None
+        return 'after the faulting step PC=%x SP=%x (handler %x, SP+8 %x)' % (r1[15], r1[12], HANDLER, sp0 + 8)
+    if r1[12] != sp0 + 8:
+        return 'exception entry moved SP from %x to %x' % (sp0, r1[12])
+    if w0 != 'v%x' % pc0:
+        return 'stacked PC is %s, faulting instruction at %x' % (w0, pc0)
+    pushed = int(w4[1:], 16)
+    NZVC_CM = 0x3c0000 | 0x1800
+    if (pushed & NZVC_CM) != (psw0 & NZVC_CM):
+        return 'stacked PSW %x does not carry the condition codes / level of the fault (%x)' % (pushed, psw0)
+    for i in range(11):
+        if r1[i] != regs[i]:
+            return 'faulting instruction changed r%d from %x to %x' % (i, regs[i], r1[i])
+    r2 = [int(x, 16) for x in out[-2][2:].split(',')]
+    if r2[15] != pc0 or r2[12] != sp0:
+        return 'RETG resumed at PC=%x SP=%x, fault was at PC=%x SP=%x' % (r2[15], r2[12], pc0, sp0)
+    if (r2[11] & NZVC_CM) != (psw0 & NZVC_CM):
+        return 'after RETG the condition codes / level are %x, at the fault %x' % (r2[11] & NZVC_CM, psw0 & NZVC_CM)
+    for i in range(11):
+        if r2[i] != regs[i]:
+            return 'after RETG r%d is %x, was %x' % (i, r2[i], regs[i])
+    return None
+
+
+PROPS['C13'] = {'gen': gen_c13, 'monitors': [mon_c13]}
 PROPS['C05'] = {'gen': gen_c05, 'monitors': [mon_c05]}
 PROPS['C02'] = {'gen': gen_c02, 'monitors': []}
 PROPS['C03'] = {'gen': gen_c03, 'monitors': []}
